@@ -107,9 +107,11 @@ def items(draw, holders):
             else:
                 vals.append({"k": "named", "name": draw(strings()), "flag": False})
         return {"k": "holder", "name": name, "values": vals}
-    if k < 8 and holders:
-        return {"k": "ref", "target": draw(st.sampled_from(holders)),
-                "others": draw(st.lists(st.sampled_from(holders), max_size=2))}
+    if k < 8:
+        # 'hext' is a builtin object of the metamodel (not contained in any model)
+        pool = holders + ["hext"]
+        return {"k": "ref", "target": draw(st.sampled_from(pool)),
+                "others": draw(st.lists(st.sampled_from(pool), max_size=2))}
     if k < 9:
         return {"k": "num", "name": draw(st.integers(0, 99)), "label": draw(strings())}
     things = []
@@ -251,11 +253,17 @@ _dot_runs = [0]
 
 
 def family_mm():
+    """the family's metamodel; Holder is a user class and one Holder object ('hext') is a builtin: a reference to it
+    leads to an object outside the model's containment tree"""
     global _MM
     if _MM is None:
         from textx import metamodel_from_str
 
-        _MM = metamodel_from_str(GRAMMAR)
+        class Holder:
+            def __init__(self, parent=None, name=None, values=None):
+                self.parent, self.name, self.values = parent, name, values if values is not None else []
+
+        _MM = metamodel_from_str(GRAMMAR, classes=[Holder], builtins={"hext": Holder(None, "hext", [])})
     return _MM
 
 
@@ -322,6 +330,10 @@ def check_dot_model(out, text, objs, strs):
     labelled = {nid for nid, attrs in p.node_stmts if "label" in attrs}
     for ends, _ in p.edges:
         for e in ends:
+            if e is not None and e not in labelled and e.isdigit():
+                # an object id used in an edge: the object (e.g. a referenced builtin) must have a node of its own
+                out.add("edge_to_object_without_node", f"edge end {e} has no labelled node statement")
+                continue
             if e is not None and e not in labelled:
                 err = D.record_label_error(e)
                 if err:
